@@ -24,3 +24,44 @@ Theorem C01_spec_not_vacuous :
         (Some (Some 2%Z)) = true.
 Proof. split; [exact lost_update_rejected | exact overlapping_increments_accepted]. Qed.
 Print Assumptions C01_spec_not_vacuous.
+
+(* ---- (b) the unbounded theorem over the list-bin protocol model ---- *)
+From Flurry Require Import Model.BinProto Proofs.BinProtoProofs.
+
+(* For every hash function, every table size, every program (any number of threads, any
+   operations among get / insert / try_insert / remove / compute_if_present) and EVERY schedule:
+   when all calls have returned, the history of each key is linearizable against the sequential
+   specification, and its final state is what a lookup finds.  One step of the model = one
+   shared-memory operation (lock-free readers included). *)
+Theorem C01_binproto_linearizable : forall khash nbins progs sched k,
+  (0 < nbins)%nat ->
+  let c := run khash nbins (init nbins progs) sched in
+  all_done c = true ->
+  linearizable None (key_history c k) (Some (lookup khash nbins c k)).
+Proof. exact binproto_linearizable. Qed.
+Print Assumptions C01_binproto_linearizable.
+
+(* the same for every reachable configuration: operations still in flight either have taken
+   effect (result decided) or have not *)
+Theorem C01_binproto_linearizable_at_every_step : forall khash nbins progs sched k,
+  (0 < nbins)%nat ->
+  let c := run khash nbins (init nbins progs) sched in
+  linearizable None (key_history c k ++ pending_calls k c) (Some (lookup khash nbins c k)).
+Proof. exact binproto_linearizable_inv. Qed.
+Print Assumptions C01_binproto_linearizable_at_every_step.
+
+(* no update is attributed to another key *)
+Theorem C01_no_cross_key : forall khash nbins progs sched k t,
+  (0 < nbins)%nat ->
+  let c := run khash nbins (init nbins progs) sched in
+  lookup khash nbins (step khash nbins c t) k <> lookup khash nbins c k ->
+  exists o, cur (get_thr c t) = Some o /\ op_key o = k.
+Proof. exact no_cross_key. Qed.
+Print Assumptions C01_no_cross_key.
+
+Theorem C01_binproto_deadlock_free : forall khash nbins,
+  (0 < nbins)%nat -> forall progs sched,
+  let c := run khash nbins (init nbins progs) sched in
+  all_done c = false -> exists t, (t < length (thr c))%nat /\ enabled c t = true.
+Proof. exact binproto_deadlock_free. Qed.
+Print Assumptions C01_binproto_deadlock_free.
